@@ -4,8 +4,8 @@ bind the repository's incidental local names instead of spelling them.
     $x    (lower case)  matches a plain Name and binds it; a second occurrence must be the same name
     $X    (upper case)  matches any expression and binds it; a second occurrence must be structurally equal
     $_                  matches any expression, binds nothing
-    ...   as a call argument / list element / subscript-free position: matches any number of remaining positional
-          arguments (and any keywords)
+    ...   as a call argument / list element: matches any number of remaining positional arguments (and any keywords);
+          after keyword arguments write `*...` (`f(k=$v, *...)`), which Python's grammar accepts there
 
 A pattern is an expression or one simple statement (`$x = FilterSet()`, `del $S['properties'][$n]`, `return $x`).
 For compound statements only the header expression can be matched (use `tests(...)`).
@@ -94,7 +94,7 @@ def _match(p: object, n: object, env: Bindings) -> bool:
             assert isinstance(n, ast.Call)
             if not _match(p.func, n.func, env):
                 return False
-            open_ended = any(_is_ellipsis(a) for a in p.args)
+            open_ended = any(_is_ellipsis(a) or (isinstance(a, ast.Starred) and _is_ellipsis(a.value)) for a in p.args)
             if not _match_seq(p.args, n.args, env):
                 return False
             pk = {k.arg: k.value for k in p.keywords}
